@@ -252,7 +252,7 @@ func checkPolicy(t *core.T, sig string, mk func() *xast.Policy, desc func() stri
 	}
 	in := func() string { return desc() + "  =>  " + string(js) }
 	var back cedar.Policy
-	if t.Protect("unmarshal-json:"+sig, in(), func() { err = back.UnmarshalJSON(js) }) {
+	if t.Protect("unmarshal-json:"+sig, in(), func() { err = core.Scribbled(js, back.UnmarshalJSON) }) {
 		return
 	}
 	if err != nil {
@@ -270,7 +270,7 @@ func checkPolicy(t *core.T, sig string, mk func() *xast.Policy, desc func() stri
 	}
 	// the ast.Policy JSON methods agree with the cedar.Policy ones
 	var ap publicast.Policy
-	if err := ap.UnmarshalJSON(js); err != nil || Canon((*xast.Policy)(&ap)) != want {
+	if err := core.Scribbled(js, ap.UnmarshalJSON); err != nil || Canon((*xast.Policy)(&ap)) != want {
 		t.Fail("ast.Policy.UnmarshalJSON-differs:"+sig, in(), want, fmt.Sprint(err))
 	}
 	// decoding REPLACES the receiver: a target that already holds another policy (a reused
@@ -304,7 +304,7 @@ func checkPolicy(t *core.T, sig string, mk func() *xast.Policy, desc func() stri
 	// JSON -> text -> JSON and text -> JSON -> text commute with using one format alone
 	txt := back.MarshalCedar()
 	var fromText cedar.Policy
-	if err := fromText.UnmarshalCedar(txt); err != nil {
+	if err := core.Scribbled(txt, fromText.UnmarshalCedar); err != nil {
 		t.Fail("text-of-json-decoded-does-not-parse:"+sig, in()+"  =>  "+string(txt), "parses", err.Error())
 		return
 	}
@@ -796,7 +796,7 @@ func sizedPolicySets(tier string) *core.Family {
 				return
 			}
 			back := cedar.NewPolicySet()
-			if err := back.UnmarshalJSON(js); err != nil {
+			if err := core.Scribbled(js, back.UnmarshalJSON); err != nil {
 				t.Fail("policyset-json-does-not-decode", in, "decodes", err.Error())
 				return
 			}
